@@ -50,6 +50,12 @@ class Rng:
             l[i], l[j] = l[j], l[i]
         return l
 
+    def sample(self, l, k):
+        """k distinct elements of l, in random order"""
+        l = list(l)
+        self.shuffle(l)
+        return l[:k]
+
     def dyadic(self, lo, hi, bits=6):
         """a value k/2^bits in [lo,hi] — exactly representable, lands on bin edges"""
         k = self.randint(int(math.ceil(lo * (1 << bits))), int(math.floor(hi * (1 << bits))))
